@@ -62,13 +62,16 @@ func boolInput(id run.CaseID) (subj, clp Paths) {
 		subj, clp, _ = gen.Lattice(r)
 	case "rectilinear":
 		subj, clp, _ = gen.Rectilinear(r)
-	case "nested", "nested-small":
+	case "nested", "nested-small", "nested-large":
 		R := gen.PickOf(r, 500.0, 20000.0, 3.0e6, 2.0e8)
+		if id.Family == "nested-large" { // magnitudes at which two unrelated rings practically never come within the rounding band of each other
+			R = gen.PickOf(r, 20000.0, 3.0e6, 2.0e8)
+		}
 		if id.Family == "nested-small" { // closed pool: +-60..150, where unit differences and near-coincidences are frequent
 			R = gen.PickOf(r, 60.0, 150.0)
 		}
 		minRad := 12.0
-		if id.Family == "nested" { // fresh family: no ring smaller than 60 units (tiny rings behave like the small-coordinate pools)
+		if id.Family != "nested-small" { // no ring smaller than 60 units (tiny rings behave like the small-coordinate pools)
 			minRad = 60
 		}
 		subj, _ = gen.NestedMin(r, 1+r.Intn(3), 6, R, r.Chance(0.7), r.Chance(0.3), minRad)
